@@ -443,6 +443,8 @@ def run(tier, seed):
     par.pmap(_FI.work, _FI.tasks(), extra=(('status',),), stats=st, chunk=6)
     par.pmap(work_repeats, repeat_tasks(), stats=st, chunk=4)
     par.pmap(work_policy, policy_cases(), stats=st, procs=1)
+    from props import delivery as _DL
+    par.pmap(_DL.work, _DL.tasks(tier), extra=(('status',),), stats=st, chunk=12)
     vcases = []
     for sel in H.pick(sorted(sev), seed, 12 if tier == 'quick' else 60):
         for opts in H.pick(OPTSETS, seed + len(vcases), 2):
